@@ -1,4 +1,4 @@
-(* Model H - how a server's handshake configuration comes about: ServerBuilder (server.go: NewServerConfig,
+(* Model J - how a server's handshake configuration comes about: ServerBuilder (server.go: NewServerConfig,
    NewServerBuilder, CompressionOptions, EncryptionOptions, Enable*Authentication, Build) and the per-scheme
    dispatch that Build installs as the Authenticate callback (server.go: buildAuthenticate).
 
